@@ -233,6 +233,10 @@ func cmdCheck(args []string) int {
 			os.MkdirAll(replayDir, 0o755)
 			path := filepath.Join(replayDir, fmt.Sprintf("%s-%d.json", r.Name, nviol+len(inconclusive)))
 			out, reproduced, err := rp.replay(hr.Rel, v, path)
+			// natively Go's map iteration order is random: a map-order counterexample may need several tries
+			for try := 0; err == nil && !reproduced && strings.Contains(r.Name, "_C18_") && try < 12; try++ {
+				out, reproduced, err = rp.replay(hr.Rel, v, path)
+			}
 			replays++
 			if err != nil {
 				inconclusive = append(inconclusive, fmt.Sprintf("%s: native replay could not run: %v", r.Name, err))
